@@ -56,12 +56,31 @@ Proof.
   - (* TLP *) destruct (Nat.ltb_spec call_bp m); [reflexivity|lia].
 Qed.
 
-(** the concrete tree the parser builds for the printed form *)
+(** a callee without a call on its postfix chain: an atom or a field chain (objects may be parenthesised) *)
+Fixpoint cfree (x : expr) : bool :=
+  match x with
+  | Atom _ => true
+  | Field y _ => (level y <? 100) || cfree y
+  | _ => false
+  end.
+
+(** a chain of prefix operators ending in one call of such a callee: [-f(x)], [!-a.b(x, y)] *)
+Fixpoint ends_call (x : expr) : bool :=
+  match x with
+  | Call f _ => cfree f
+  | Un _ y => ends_call y
+  | _ => false
+  end.
+
+(** the concrete tree the parser builds for the printed form; a call gets less binding power than a
+    prefix operator, so [-f(x)] is read as a call whose callee is [-f] *)
 Fixpoint cst0 (e : expr) : cst :=
   let w := fun (c : nat) (x : expr) => if level x <? c then CParen (cst0 x) else cst0 x in
   match e with
   | Atom n => CAtom n
-  | Un u x => CPrefix u (if level x <? prefix_bp then CParen (cst0 x) else cst0 x)
+  | Un u x =>
+      if ends_call x then match cst0 x with CCall c a => CCall (CPrefix u c) a | c => CPrefix u c end
+      else CPrefix u (if level x <? prefix_bp then CParen (cst0 x) else cst0 x)
   | Bin o l r => CBin o (if level l <? fst (bp o) then CParen (cst0 l) else cst0 l)
                         (if level r <? snd (bp o) then CParen (cst0 r) else cst0 r)
   | Call f a => CCall (if level f <? 100 then CParen (cst0 f) else cst0 f)
@@ -75,7 +94,7 @@ Definition wrapc (c : nat) (x : expr) : cst := if level x <? c then CParen (cst0
 Fixpoint plevel (e : expr) : nat :=
   match e with
   | Atom _ => 100
-  | Un _ _ => 23
+  | Un _ x => if ends_call x then 21 else 23
   | Bin o _ _ => fst (bp o)
   | Field x _ => Nat.min 23 (if level x <? 100 then 100 else plevel x)
   | Call f _ => Nat.min 21 (if level f <? 100 then 100 else plevel f)
@@ -83,16 +102,16 @@ Fixpoint plevel (e : expr) : nat :=
 Definition plw (c : nat) (x : expr) : nat := if level x <? c then 100 else plevel x.
 
 (** the next token must bind weaker than this for the expression to end where its text ends *)
-Definition R (e : expr) : nat := match e with Bin o _ _ => snd (bp o) | Un _ _ => 21 | _ => 101 end.
+Definition R (e : expr) : nat := match e with Bin o _ _ => snd (bp o) | Un _ x => if ends_call x then 101 else 21 | _ => 101 end.
 Definition Rw (c : nat) (x : expr) : nat := if level x <? c then 101 else R x.
 
 (** the class of trees covered: a callee is an atom, a call or a field access (parentheses around an
-    operator callee are not honoured by lowering), and under a prefix operator the operand's postfix
-    chain contains no call (the parser gives a call less power than a prefix operator) *)
+    operator callee are not honoured by lowering); the operand of a prefix operator either has no call
+    on its postfix chain, or is (a chain of prefix operators over) one call of a call-free callee *)
 Fixpoint ok (e : expr) : bool :=
   match e with
   | Atom _ => true
-  | Un _ x => ok x && (23 <=? plw prefix_bp x)
+  | Un _ x => ok x && (ends_call x || (23 <=? plw prefix_bp x))
   | Bin _ l r => ok l && ok r
   | Call f a => ok f && (100 <=? level f) && (fix go (l : list expr) : bool := match l with [] => true | x :: r => ok x && go r end) a
   | Field x _ => ok x
@@ -115,6 +134,7 @@ Qed.
 Lemma plevel_atomlike e : 100 <= level e -> 21 <= plevel e.
 Proof.
   induction e as [n|u x IHx|o l r IHl IHr|f a IHf IHa|x n IHx] using expr_ind'; cbn [plevel level]; intros Hl; try lia.
+  - destruct (ends_call x); lia.
   - destruct (Nat.ltb_spec (level f) 100); [lia|]. specialize (IHf ltac:(lia)). lia.
   - destruct (Nat.ltb_spec (level x) 100); [lia|]. specialize (IHx ltac:(lia)). lia.
 Qed.
@@ -122,6 +142,7 @@ Qed.
 Lemma plevel_ge c e : c <= level e -> c <= 16 -> c <= plevel e.
 Proof.
   intros Hl Hc. destruct e as [n|u x|o l r|f a|x n]; cbn [plevel level] in *; try lia.
+  - destruct (ends_call x); lia.
   - destruct (Nat.ltb_spec (level f) 100).
     + lia.
     + pose proof (plevel_atomlike f ltac:(lia)). lia.
@@ -131,7 +152,7 @@ Proof.
 Qed.
 
 Lemma R_ge c e : c <= level e -> c <= 16 -> c < R e.
-Proof. intros Hl Hc. destruct e as [n|u x|o l r|f a|x n]; cbn in *; try lia. pose proof (bp_bounds o). lia. Qed.
+Proof. intros Hl Hc. destruct e as [n|u x|o l r|f a|x n]; cbn [R level] in *; try lia. destruct (ends_call x); lia. pose proof (bp_bounds o). lia. Qed.
 
 (** ** one-step unfoldings of the parser, as rewriting lemmas *)
 Lemma expr_bp_atom f m n r : expr_bp (S f) m (TAtom n :: r) = loop f m (CAtom n) r.
@@ -317,8 +338,11 @@ Proof.
       apply IH. exact Oka.
 Qed.
 
-Lemma ok_un u x : ok (Un u x) = true -> ok x = true /\ 23 <= plw prefix_bp x.
-Proof. cbn [ok]. intros H. apply andb_true_iff in H. destruct H as [H1 H2]. apply Nat.leb_le in H2. auto. Qed.
+Lemma ok_un u x : ok (Un u x) = true -> ok x = true /\ (ends_call x = true \/ (ends_call x = false /\ 23 <= plw prefix_bp x)).
+Proof.
+  cbn [ok]. intros H. apply andb_true_iff in H. destruct H as [H1 H2]. split; [exact H1|].
+  destruct (ends_call x); [left; reflexivity|right]. rewrite orb_false_l in H2. apply Nat.leb_le in H2. auto.
+Qed.
 Lemma ok_bin o l r : ok (Bin o l r) = true -> ok l = true /\ ok r = true.
 Proof. cbn [ok]. intros H. apply andb_true_iff in H. exact H. Qed.
 
@@ -330,46 +354,129 @@ Qed.
 Lemma Rw_gt c x : c <= 16 -> c < Rw c x.
 Proof. intros Hc. unfold Rw. destruct (Nat.ltb_spec (level x) c); [lia|]. apply R_ge; assumption. Qed.
 
-Theorem star0_all : forall e, Star0 e.
+(** call-free callees are atom-like and are read whole at the power of a prefix operator *)
+Lemma cfree_props x : cfree x = true -> 100 <= level x /\ 23 <= plevel x /\ R x = 101.
 Proof.
-  induction e as [n|u x IHx|o l r IHl IHr|f a IHf IHa|x n IHx] using expr_ind';
-    intros Hok m rest res Hm Hs Hl.
-  - (* atom *) rewrite P_atom. cbn [app]. apply ev_expr_atom. exact Hl.
+  induction x as [n|u x IHx|o l r IHl IHr|f a IHf IHa|x n IHx] using expr_ind'; cbn [cfree level plevel R]; try discriminate; intros H.
+  - lia.
+  - apply orb_true_iff in H. destruct (Nat.ltb_spec (level x) 100); [lia|].
+    destruct H as [H|H]; [discriminate|]. destruct (IHx H) as [_ [P _]]. lia.
+Qed.
+
+(** the callee part and the arguments of a prefix chain that ends in a call *)
+Fixpoint pre (x : expr) : cst :=
+  match x with Call f _ => cst0 f | Un v y => CPrefix v (pre y) | _ => CAtom 0 end.
+Fixpoint fargs (x : expr) : list expr :=
+  match x with Call _ a => a | Un _ y => fargs y | _ => [] end.
+Fixpoint base (x : expr) : expr :=
+  match x with Call f _ => f | Un v y => Un v (base y) | _ => x end.
+
+Lemma cst0_ec x : ends_call x = true -> cst0 x = CCall (pre x) (map cst0 (fargs x)).
+Proof.
+  induction x as [n|u x IHx|o l r IHl IHr|f a IHf IHa|x n IHx] using expr_ind'; cbn [ends_call]; try discriminate; intros H.
+  - cbn [cst0 pre fargs]. rewrite H, (IHx H). reflexivity.
+  - rewrite cst0_call. cbn [pre fargs]. unfold wrapc.
+    destruct (cfree_props f H) as [L _]. replace (level f <? 100) with false by (symmetry; apply Nat.ltb_ge; exact L). reflexivity.
+Qed.
+
+Lemma print_ec x : ends_call x = true -> print_at prefix_bp x = print_at 0 x.
+Proof.
+  intros H. rewrite print_at_unfold. destruct x as [n|u x0|o l r|f a|x0 n]; cbn [ends_call] in H; try discriminate; cbn [level]; unfold prefix_bp; reflexivity.
+Qed.
+
+Lemma ok_ec_args x : ends_call x = true -> ok x = true -> Forall (fun y => ok y = true) (fargs x).
+Proof.
+  induction x as [n|u x IHx|o l r IHl IHr|f a IHf IHa|x n IHx] using expr_ind'; cbn [ends_call fargs]; try discriminate; intros H Hok.
+  - apply ok_un in Hok. apply IHx; tauto.
+  - apply ok_call in Hok. tauto.
+Qed.
+
+(** reading a prefix chain that ends in a call, at the power of a prefix operator, stops before the call *)
+Definition StarC (x : expr) : Prop :=
+  ends_call x = true -> ok x = true -> forall rest,
+  EV (fun f => expr_bp f prefix_bp (print_at 0 x ++ rest)) (pre x, TLP :: commas (fargs x) ++ TRP :: rest).
+
+Lemma stops_lp k rest : call_bp < k -> stops k (TLP :: rest).
+Proof. intros H. unfold stops, lbp. exact H. Qed.
+
+Theorem star0_all : forall e, Star0 e /\ StarC e /\ Forall Star (fargs e).
+Proof.
+  induction e as [n|u x IHx|o l r IHl IHr|f a IHf IHa|x n IHx] using expr_ind'.
+  - (* atom *) split; [|split; [intros H; discriminate H|constructor]].
+    intros Hok m rest res Hm Hs Hl. rewrite P_atom. cbn [app]. apply ev_expr_atom. exact Hl.
   - (* prefix *)
-    apply ok_un in Hok. destruct Hok as [Okx Hp].
-    rewrite P_un. cbn [app].
-    eapply ev_expr_prefix; [|exact Hl].
-    apply (star_of_star0 x IHx Okx prefix_bp prefix_bp rest).
-    + unfold prefix_bp in *. lia.
-    + unfold Rw. cbn [R] in Hs. destruct (Nat.ltb_spec (level x) prefix_bp).
-      * eapply stops_mono; [exact Hs|lia].
-      * (* operand unparenthesised: atom-like, field chain or another prefix *)
-        destruct x as [n0|u0 x0|o0 l0 r0|f0 a0|x0 n0]; cbn [R]; try (eapply stops_mono; [exact Hs|lia]).
-        cbn [level] in *. pose proof (bp_bounds o0). unfold prefix_bp in *. lia.
-    + apply ev_loop_stop. cbn [R] in Hs. eapply stops_mono; [exact Hs|unfold prefix_bp; lia].
+    destruct IHx as [S0x [SCx SAx]].
+    assert (SC : StarC (Un u x)).
+    { intros Hec Hok rest. cbn [ends_call] in Hec. apply ok_un in Hok. destruct Hok as [Okx _].
+      rewrite P_un, (print_ec x Hec). cbn [app pre fargs].
+      eapply ev_expr_prefix; [apply (SCx Hec Okx rest)|].
+      apply ev_loop_stop. apply stops_lp. unfold call_bp, prefix_bp. lia. }
+    split; [|split; [exact SC|exact SAx]].
+    intros Hok m rest res Hm Hs Hl.
+    pose proof Hok as Hok'. apply ok_un in Hok. destruct Hok as [Okx [Hec|[Hec Hp]]].
+    + (* the operand ends in a call: the call is read by the enclosing loop *)
+      cbn [plevel] in Hm. rewrite Hec in Hm.
+      rewrite (cst0_ec (Un u x)) in Hl by exact Hec.
+      pose proof (SC Hec Hok' rest) as G. cbn [pre fargs] in *.
+      destruct G as [f1 G1].
+      assert (A : EV (fun f => args f (commas (fargs x) ++ TRP :: rest)) (map cst0 (fargs x), rest)).
+      { apply args_read; [apply ok_ec_args; assumption|exact SAx]. }
+      assert (L : EV (fun f => loop f m (CPrefix u (pre x)) (TLP :: commas (fargs x) ++ TRP :: rest)) res).
+      { eapply ev_loop_call; [apply Nat.ltb_ge; unfold call_bp; lia|exact A|exact Hl]. }
+      (* expr_bp at m behaves like expr_bp at prefix_bp up to the first loop: redo the prefix step *)
+      rewrite P_un, (print_ec x Hec). cbn [app].
+      eapply ev_expr_prefix; [apply (SCx Hec Okx)|exact L].
+    + cbn [plevel R] in *. rewrite Hec in *. cbn [cst0] in Hl. rewrite Hec in Hl.
+      rewrite P_un. cbn [app].
+      eapply ev_expr_prefix; [|exact Hl].
+      apply (star_of_star0 x S0x Okx prefix_bp prefix_bp rest).
+      * unfold prefix_bp in *. lia.
+      * unfold Rw. destruct (Nat.ltb_spec (level x) prefix_bp).
+        -- eapply stops_mono; [exact Hs|lia].
+        -- destruct x as [n0|u0 x0|o0 l0 r0|f0 a0|x0 n0]; cbn [R]; try (eapply stops_mono; [exact Hs|lia]).
+           ++ destruct (ends_call x0); eapply stops_mono; try exact Hs; lia.
+           ++ cbn [level] in *. pose proof (bp_bounds o0). unfold prefix_bp in *. lia.
+      * apply ev_loop_stop. eapply stops_mono; [exact Hs|unfold prefix_bp; lia].
   - (* binary *)
+    destruct IHl as [S0l _]. destruct IHr as [S0r _].
+    split; [|split; [intros H; discriminate H|constructor]].
+    intros Hok m rest res Hm Hs Hl.
     apply ok_bin in Hok. destruct Hok as [Okl Okr].
     pose proof (bp_bounds o) as [B1 [B2 B3]].
     cbn [plevel] in Hm. cbn [R] in Hs.
     rewrite P_bin. rewrite <- app_assoc. cbn [app].
-    apply (star_of_star0 l IHl Okl (fst (bp o)) m).
+    apply (star_of_star0 l S0l Okl (fst (bp o)) m).
     + pose proof (plw_bin (fst (bp o)) l ltac:(lia)). lia.
     + pose proof (Rw_gt (fst (bp o)) l ltac:(lia)) as G.
       unfold stops, lbp. destruct o; cbn [tok_of_bin infix_of bp fst] in *; lia.
     + eapply ev_loop_infix.
       * apply Nat.ltb_ge. exact Hm.
-      * apply (star_of_star0 r IHr Okr (snd (bp o)) (snd (bp o)) rest).
+      * apply (star_of_star0 r S0r Okr (snd (bp o)) (snd (bp o)) rest).
         -- apply plw_bin. lia.
         -- pose proof (Rw_gt (snd (bp o)) r ltac:(lia)). eapply stops_mono; [exact Hs|lia].
         -- apply ev_loop_stop. exact Hs.
       * cbn [cst0] in Hl. unfold wrapc. exact Hl.
   - (* call *)
+    destruct IHf as [S0f _].
+    assert (SA : Forall Star a).
+    { eapply Forall_impl; [|exact IHa]. intros y [Hy _]. apply star_of_star0. exact Hy. }
+    assert (SC : StarC (Call f a)).
+    { intros Hec Hok rest. cbn [ends_call] in Hec. destruct (cfree_props f Hec) as [Lf [Pf Rf]].
+      apply ok_call in Hok. destruct Hok as [Okf _].
+      rewrite P_call. rewrite <- app_assoc. cbn [app]. rewrite <- app_assoc. cbn [app pre fargs].
+      apply (star_of_star0 f S0f Okf 100 prefix_bp).
+      - unfold plw. replace (level f <? 100) with false by (symmetry; apply Nat.ltb_ge; exact Lf). unfold prefix_bp. lia.
+      - unfold Rw. replace (level f <? 100) with false by (symmetry; apply Nat.ltb_ge; exact Lf). rewrite Rf. apply stops_lp. unfold call_bp. lia.
+      - unfold wrapc. replace (level f <? 100) with false by (symmetry; apply Nat.ltb_ge; exact Lf).
+        apply ev_loop_stop. apply stops_lp. unfold call_bp, prefix_bp. lia. }
+    split; [|split; [exact SC|exact SA]].
+    intros Hok m rest res Hm Hs Hl.
     apply ok_call in Hok. destruct Hok as [Okf [Lf Oka]].
     rewrite cst0_call in Hl. cbn [plevel] in Hm.
     assert (Ef : level f <? 100 = false) by (apply Nat.ltb_ge; exact Lf).
     rewrite Ef in Hm.
     rewrite P_call. rewrite <- app_assoc. cbn [app]. rewrite <- app_assoc. cbn [app].
-    apply (star_of_star0 f IHf Okf 100 m).
+    apply (star_of_star0 f S0f Okf 100 m).
     + unfold plw. rewrite Ef. lia.
     + unfold Rw. rewrite Ef. destruct f as [n0|u0 x0|o0 l0 r0|f0 a0|x0 n0]; cbn [R level] in *;
         try (unfold stops, lbp, call_bp; cbn; lia).
@@ -377,13 +484,15 @@ Proof.
       * pose proof (bp_bounds o0). lia.
     + eapply ev_loop_call.
       * apply Nat.ltb_ge. unfold call_bp. lia.
-      * apply args_read; [exact Oka|].
-        eapply Forall_impl; [|exact IHa]. intros y Hy. apply star_of_star0. exact Hy.
+      * apply args_read; [exact Oka|exact SA].
       * exact Hl.
   - (* field *)
+    destruct IHx as [S0x _].
+    split; [|split; [intros H; discriminate H|constructor]].
+    intros Hok m rest res Hm Hs Hl.
     cbn [ok] in Hok. cbn [plevel] in Hm.
     rewrite P_field. rewrite <- app_assoc. cbn [app].
-    apply (star_of_star0 x IHx Hok 100 m).
+    apply (star_of_star0 x S0x Hok 100 m).
     + unfold plw. destruct (Nat.ltb_spec (level x) 100); lia.
     + unfold Rw. destruct (Nat.ltb_spec (level x) 100); [unfold stops, lbp, dot_bp; cbn; lia|].
       destruct x as [n0|u0 x0|o0 l0 r0|f0 a0|x0 n0]; cbn [R level] in *;
@@ -394,7 +503,6 @@ Proof.
       * apply Nat.ltb_ge. unfold dot_bp. cbn [fst]. lia.
       * unfold dot_bp. cbn [snd]. apply ev_expr_atom. apply ev_loop_stop.
         unfold stops. destruct rest as [|t q]; [exact I|]. destruct (lbp t) eqn:E; [|exact I].
-        (* the loop at 24 only continues on nothing: every left power is below 24 *)
         unfold lbp in E. destruct t; cbn in E; try discriminate; inversion E; subst; try (unfold call_bp; lia); try (unfold dot_bp; cbn; lia).
         pose proof (bp_bounds o). lia.
       * cbn [cst0] in Hl. unfold wrapc. exact Hl.
@@ -441,38 +549,88 @@ Proof.
     cbn [map]. unfold lower_list in *. rewrite (G1 f ltac:(lia)). rewrite (G2 f ltac:(lia)). reflexivity.
 Qed.
 
-Theorem lower_cst0 : forall e, ok e = true -> EV (fun f => lower f (cst0 e) []) e.
+(** the call read after a prefix chain is pushed back under the chain by lowering *)
+Lemma lower_call_prefix f u c a e a' :
+  lower f c [] = Some e -> lower_list (S f) a = Some a' ->
+  lower (S (S f)) (CCall (CPrefix u c) a) [] =
+  Some (match a' with [] => apply_empty (Un u e) | _ => apply_trailing (Un u e) a' end).
+Proof.
+  intros Hc Ha. unfold lower_list in Ha. cbn [lower]. cbn [lower] in Ha. rewrite Ha. rewrite app_nil_r.
+  destruct a' as [|y ys]; cbn [lower]; rewrite Hc; reflexivity.
+Qed.
+
+Lemma rebuild x :
+  ends_call x = true ->
+  (match fargs x with [] => apply_empty (base x) | l => apply_trailing (base x) l end) = x.
+Proof.
+  induction x as [n|u x IHx|o l r IHl IHr|f a IHf IHa|x n IHx] using expr_ind'; cbn [ends_call fargs base]; try discriminate; intros H.
+  - specialize (IHx H). destruct (fargs x) as [|y ys]; cbn [apply_empty apply_trailing]; rewrite IHx; reflexivity.
+  - destruct f as [n0|u0 x0|o0 l0 r0|f0 a0|x0 n0]; cbn [cfree] in H; try discriminate; destruct a; reflexivity.
+Qed.
+
+Theorem lower_all : forall e,
+  (ok e = true -> EV (fun f => lower f (cst0 e) []) e) /\
+  (ends_call e = true -> ok e = true -> EV (fun f => lower f (pre e) []) (base e)) /\
+  Forall (fun x => ok x = true -> EV (fun f => lower f (cst0 x) []) x) (fargs e).
 Proof.
   assert (W : forall x c, EV (fun f => lower f (cst0 x) []) x -> EV (fun f => lower f (wrapc c x) []) x).
   { intros x c [f0 G]. unfold wrapc. destruct (level x <? c); [|exists f0; exact G].
     exists (S f0). intros f Hf. destruct f as [|f]; [lia|]. rewrite lower_paren. apply G. lia. }
-  induction e as [n|u x IHx|o l r IHl IHr|f a IHf IHa|x n IHx] using expr_ind'; intros Hok.
-  - exists 1. intros f Hf. destruct f as [|f]; [lia|]. apply lower_atom.
-  - apply ok_un in Hok. destruct Hok as [Okx _].
-    destruct (W x prefix_bp (IHx Okx)) as [f0 G]. exists (S f0). intros f Hf. destruct f as [|f]; [lia|].
-    cbn [cst0]. apply lower_prefix. apply G. lia.
-  - apply ok_bin in Hok. destruct Hok as [Okl Okr].
-    destruct (W l (fst (bp o)) (IHl Okl)) as [f1 G1]. destruct (W r (snd (bp o)) (IHr Okr)) as [f2 G2].
+  induction e as [n|u x IHx|o l r IHl IHr|f a IHf IHa|x n IHx] using expr_ind'.
+  - split; [|split; [intros H; discriminate H|constructor]].
+    intros _. exists 1. intros f Hf. destruct f as [|f]; [lia|]. apply lower_atom.
+  - destruct IHx as [Lx [Px Ax]].
+    assert (PU : ends_call (Un u x) = true -> ok (Un u x) = true -> EV (fun f => lower f (pre (Un u x)) []) (base (Un u x))).
+    { cbn [ends_call pre base]. intros Hec Hok. apply ok_un in Hok. destruct Hok as [Okx _].
+      destruct (Px Hec Okx) as [f0 G]. exists (S f0). intros f Hf. destruct f as [|f]; [lia|]. apply lower_prefix. apply G. lia. }
+    split; [|split; [exact PU|exact Ax]].
+    intros Hok. pose proof Hok as Hok'. apply ok_un in Hok. destruct Hok as [Okx [Hec|[Hec _]]].
+    + rewrite (cst0_ec (Un u x)) by exact Hec. cbn [pre fargs].
+      destruct (Px Hec Okx) as [f1 G1].
+      assert (HA : Forall (fun y => EV (fun f => lower f (cst0 y) []) y) (fargs x)).
+      { pose proof (ok_ec_args x Hec Okx) as OA. clear - Ax OA. induction Ax as [|y a Hy Ha IH]; [constructor|]. inversion OA; subst. constructor; auto. }
+      destruct (ev_lower_list _ HA) as [f2 G2].
+      exists (S (S (Nat.max f1 f2))). intros g Hg. destruct g as [|[|g]]; try lia.
+      rewrite (lower_call_prefix g u (pre x) (map cst0 (fargs x)) (base x) (fargs x)); [|apply G1; lia|apply G2; lia].
+      f_equal. pose proof (rebuild x Hec) as RB.
+      destruct (fargs x) as [|y ys]; cbn [apply_empty apply_trailing]; rewrite RB; reflexivity.
+    + cbn [cst0]. rewrite Hec.
+      destruct (W x prefix_bp (Lx Okx)) as [f0 G]. exists (S f0). intros f Hf. destruct f as [|f]; [lia|].
+      apply lower_prefix. apply G. lia.
+  - destruct IHl as [Ll _]. destruct IHr as [Lr _].
+    split; [|split; [intros H; discriminate H|constructor]].
+    intros Hok. apply ok_bin in Hok. destruct Hok as [Okl Okr].
+    destruct (W l (fst (bp o)) (Ll Okl)) as [f1 G1]. destruct (W r (snd (bp o)) (Lr Okr)) as [f2 G2].
     exists (S (Nat.max f1 f2)). intros f Hf. destruct f as [|f]; [lia|].
     cbn [cst0]. apply lower_bin; [apply G1|apply G2]; lia.
-  - apply ok_call in Hok. destruct Hok as [Okf [Lf Oka]].
-    rewrite cst0_call.
-    assert (Ef : level f <? 100 = false) by (apply Nat.ltb_ge; exact Lf).
-    unfold wrapc. rewrite Ef.
-    destruct (IHf Okf) as [f1 G1].
-    assert (HA : Forall (fun x => EV (fun f => lower f (cst0 x) []) x) a).
-    { clear - IHa Oka. induction IHa as [|y a Hy Ha IH]; [constructor|]. inversion Oka; subst. constructor; auto. }
-    destruct (ev_lower_list a HA) as [f2 G2].
-    exists (S (Nat.max f1 f2)). intros g Hg. destruct g as [|g]; [lia|].
-    apply lower_call.
-    + destruct f as [n0|u0 x0|o0 l0 r0|f0 a0|x0 n0]; cbn [level] in Lf; try reflexivity.
-      * unfold prefix_bp in Lf. lia.
-      * pose proof (bp_bounds o0). lia.
-    + apply G1. lia.
-    + apply G2. lia.
-  - cbn [ok] in Hok. destruct (W x 100 (IHx Hok)) as [f0 G]. exists (S f0). intros f Hf. destruct f as [|f]; [lia|].
+  - destruct IHf as [Lf _].
+    assert (LA : Forall (fun x => ok x = true -> EV (fun f => lower f (cst0 x) []) x) a).
+    { eapply Forall_impl; [|exact IHa]. intros y [Hy _]. exact Hy. }
+    split; [|split; [|exact LA]].
+    + intros Hok. apply ok_call in Hok. destruct Hok as [Okf [Lvl Oka]].
+      rewrite cst0_call.
+      assert (Ef : level f <? 100 = false) by (apply Nat.ltb_ge; exact Lvl).
+      unfold wrapc. rewrite Ef.
+      destruct (Lf Okf) as [f1 G1].
+      assert (HA : Forall (fun x => EV (fun f => lower f (cst0 x) []) x) a).
+      { clear - LA Oka. induction LA as [|y a Hy Ha IH]; [constructor|]. inversion Oka; subst. constructor; auto. }
+      destruct (ev_lower_list a HA) as [f2 G2].
+      exists (S (Nat.max f1 f2)). intros g Hg. destruct g as [|g]; [lia|].
+      apply lower_call.
+      * destruct f as [n0|u0 x0|o0 l0 r0|f0 a0|x0 n0]; cbn [level] in Lvl; try reflexivity.
+        -- unfold prefix_bp in Lvl. lia.
+        -- pose proof (bp_bounds o0). lia.
+      * apply G1. lia.
+      * apply G2. lia.
+    + cbn [ends_call pre base]. intros Hec Hok. apply ok_call in Hok. destruct Hok as [Okf _]. exact (Lf Okf).
+  - destruct IHx as [Lx _].
+    split; [|split; [intros H; discriminate H|constructor]].
+    intros Hok. cbn [ok] in Hok. destruct (W x 100 (Lx Hok)) as [f0 G]. exists (S f0). intros f Hf. destruct f as [|f]; [lia|].
     cbn [cst0]. apply lower_dot. apply G. lia.
 Qed.
+
+Theorem lower_cst0 : forall e, ok e = true -> EV (fun f => lower f (cst0 e) []) e.
+Proof. intros e. exact (proj1 (lower_all e)). Qed.
 
 (** ** print then parse *)
 Theorem print_parse_roundtrip :
@@ -480,7 +638,7 @@ Theorem print_parse_roundtrip :
 Proof.
   intros e Hok.
   assert (P : EV (fun f => expr_bp f 0 (print_at 0 e ++ [])) (cst0 e, [])).
-  { apply (star0_all e Hok 0 [] (cst0 e, [])); [lia|exact I|apply ev_loop_stop; exact I]. }
+  { apply (proj1 (star0_all e) Hok 0 [] (cst0 e, [])); [lia|exact I|apply ev_loop_stop; exact I]. }
   rewrite app_nil_r in P. destruct P as [f1 G1]. destruct (lower_cst0 e Hok) as [f2 G2].
   exists (Nat.max f1 f2). intros f Hf. unfold parse_fuel, print. rewrite (G1 f ltac:(lia)). apply G2. lia.
 Qed.
